@@ -5,7 +5,7 @@
        checked (`c.w ≤ max_weight` at `store.present`, `max_weight - weight_used ≥ c.w` at a `wu.space`) is still good when
        it gets to `wu.add`, because everybody else moves the total DOWN (positive charges: `BInv.pendingPos`) or to ZERO
        (`shutdown.wu_zero`); preserved by every action of every thread (`cr_inv_step`).
-    2  `NoShut`: the shutdown flag is clear and no client stands inside `shutdown()` (its `start` included); preserved
+    2  `CrShut`: the shutdown flag is clear and no client stands inside `shutdown()` (its `start` included); preserved
        by every action but the issue of a `shutdown` request (`cr_noShut_step`).
 -/
 import CachedProofs.LayerB.Closed
@@ -179,12 +179,12 @@ theorem cr_shut_of_isMget {pc : CPc} (h : pc.isMget = true) : pc.cr_shut = false
   cases pc <;> simp_all [CPc.isMget, CPc.cr_shut]
 
 /-- **The shutdown flag is clear and no client stands inside `shutdown()`.** -/
-structure NoShut (b : BState) : Prop where
+structure CrShut (b : BState) : Prop where
   flag : b.g.shutting = false
   cl : ∀ (i : Nat) (pc : CPc), b.cl[i]? = some pc → pc.cr_shut = false
 
 theorem cr_noShut_init (cfg : Cfg) (now : Nat) (seeds : List Nat) (clients : Nat) (shardMap : List (Nat × Nat)) :
-    NoShut { BState.init cfg now seeds clients with storeShard := shardMap } := by
+    CrShut { BState.init cfg now seeds clients with storeShard := shardMap } := by
   refine ⟨rfl, ?_⟩
   intro i pc h
   simp only [BState.init, List.getElem?_replicate] at h
@@ -236,7 +236,7 @@ theorem cr_start_next {b b' : BState} {i : Nat} {o o' : Oracle} {r : Req} {pc' :
       rcases mgetStart_spec b i ks iter with ⟨_, _, e⟩ | ⟨_, e⟩ <;> rw [e] at hpc' <;>
         simp [finishCall, setClient, hlt] at hpc' <;> subst hpc' <;> rfl
     all_goals simp only [Except.ok.injEq, Prod.mk.injEq] at h; obtain ⟨rfl, rfl⟩ := h
-    all_goals (simp [finishCall, setClient, hlt] at hpc'; subst hpc'; rfl)
+    all_goals (simp [setClient, hlt] at hpc'; subst hpc'; rfl)
 
 /-- where client `i` stands after one of its actions, if it was not inside `shutdown()` before: not inside it -/
 theorem cr_client_next {b b' : BState} {i : Nat} {o o' : Oracle} {pc pc' : CPc} (hpc : b.cl[i]? = some pc)
@@ -275,9 +275,9 @@ theorem cr_client_next {b b' : BState} {i : Nat} {o o' : Oracle} {pc pc' : CPc} 
     exact cr_shut_of_isMget hm
   all_goals (simp [finishCall, setClient, spotFinish, hlt] at hpc'; subst hpc'; rfl)
 
-/-- one action of a client: `NoShut` is preserved -/
-theorem cr_noShut_client {b b' : BState} {i : Nat} {o o' : Oracle} (hq : NoShut b)
-    (h : clientAct b i o = .ok (b', o')) : NoShut b' := by
+/-- one action of a client: `CrShut` is preserved -/
+theorem cr_noShut_client {b b' : BState} {i : Nat} {o o' : Oracle} (hq : CrShut b)
+    (h : clientAct b i o = .ok (b', o')) : CrShut b' := by
   obtain ⟨pc, pc', f⟩ := clientAct_flow h
   have hpcq := hq.cl i pc f.hpc
   refine ⟨?_, ?_⟩
@@ -294,9 +294,9 @@ theorem cr_noShut_client {b b' : BState} {i : Nat} {o o' : Oracle} (hq : NoShut 
 theorem cr_wtrans_shutting {b b' : BState} (h : WTrans b b') : b'.g.shutting = b.g.shutting := by
   cases h <;> simp [finishCmd, rejectCmd, ttlPut, ttlDelete]
 
-/-- **Every action but the issue of a `shutdown` request preserves `NoShut`.** -/
-theorem cr_noShut_step {b b' : BState} {a : Act} {o o' : Oracle} (hq : NoShut b)
-    (ha : ∀ i r, a = .issue i r → r.cr_isShut = false) (h : stepB b a o = .ok (b', o')) : NoShut b' := by
+/-- **Every action but the issue of a `shutdown` request preserves `CrShut`.** -/
+theorem cr_noShut_step {b b' : BState} {a : Act} {o o' : Oracle} (hq : CrShut b)
+    (ha : ∀ i r, a = .issue i r → r.cr_isShut = false) (h : stepB b a o = .ok (b', o')) : CrShut b' := by
   cases a with
   | issue i r =>
     simp only [stepB] at h
